@@ -208,6 +208,53 @@ def corpus(ctx):
     one_case(ctx, pred, ref, "DSC", (3, 10), "corpus.spill")
 
 
+def singleton_corpus(ctx):
+    """deterministic ASSD scenes stored with an axis of length one: a column reference covered by stacked fragments with gaps;
+    a frame with a bar through an opening"""
+    for ax in (0, 1, 2):
+        for (a1, g1, a2, g2, a3) in ((15, 1, 2, 1, 5), (12, 2, 3, 1, 6), (10, 1, 4, 2, 4)):
+            r = np.zeros((30, 30), np.uint8)
+            p = np.zeros_like(r)
+            r[5:25, 10:20] = 1
+            y = 5
+            p[y:y + a1, 10:20] = 1
+            y += a1 + g1
+            p[y:y + a2, 10:20] = 2
+            y += a2 + g2
+            p[y:min(30, y + a3), 10:20] = 3
+            for thr in ((1, 1), (2, 1), (1, 2)):
+                one_case(ctx, np.expand_dims(p, ax), np.expand_dims(r, ax), "ASSD", thr, "corpus.singleton-stacked")
+        n, out_ = 12, 6
+        r = np.zeros((n + 4, n + out_ + 4), np.uint8)
+        p = np.zeros_like(r)
+        r[2:2 + n, 2:2 + n] = 1
+        p[2:2 + n, 2:2 + n] = 1
+        p[3:1 + n, 3:1 + n] = 0
+        p[7:9, 1 + n:2 + n] = 0
+        p[7:9, n - 1:2 + n + out_] = 2
+        for thr in ((1, 1), (1, 2), (2, 1)):
+            one_case(ctx, np.expand_dims(p, ax), np.expand_dims(r, ax), "ASSD", thr, "corpus.singleton-frame-bar")
+            one_case(ctx, p, r, "ASSD", thr, "corpus.frame-bar")
+    # the one-voxel frame of a solid reference (ASSD exactly 0.0 without being the reference) followed by the interior,
+    # the interior plus a stray voxel, or a bar — with and without an axis of length one
+    for H, W in ((7, 8), (9, 9)):
+        for variant in ("interior", "interior+stray", "bar"):
+            r = np.zeros((H + 6, W + 8), np.uint8)
+            p = np.zeros_like(r)
+            r[2:2 + H, 2:2 + W] = 1
+            p[2:2 + H, 2:2 + W] = 1
+            if variant == "bar":
+                p[3:1 + H, 3:1 + W] = 0
+                p[4, 3:W + 7] = 3
+            else:
+                p[3:1 + H, 3:1 + W] = 2
+                if variant == "interior+stray":
+                    p[H + 4, W + 5] = 2
+            for thr in ((1, 2), (1, 1), (2, 1)):
+                one_case(ctx, p, r, "ASSD", thr, "corpus.frame-" + variant)
+    ctx.count("singleton_axis_corpus")
+
+
 def many_fragments(rng):
     """a reference almost covered by one big fragment plus 15-40 one-voxel fragments with sparse labels, and one
     fragment that lies mostly outside"""
@@ -300,6 +347,7 @@ def scale_recipes(rng):
 
 def run(ctx):
     corpus(ctx)
+    singleton_corpus(ctx)
     rng = ctx.rng
     for i in range(ctx.scale(6, 30)):
         p, r = big_id_chain(rng)
